@@ -284,3 +284,44 @@ Definition ep_dump_di (v : pyval) : pyval :=
 
 Definition entries_ti : list (str * (pyval -> pyval)) :=
   [ (lit "dump_ti", ep_dump_ti); (lit "load_ti", ep_load_ti); (lit "dump_di", ep_dump_di) ].
+
+(* ---------------- checksums *)
+From PM Require Import Model.Checksums.
+
+Definition ep_normpath (v : pyval) : pyval := match v with PStr s => PStr (normpath s) | _ => bad_input end.
+
+Definition ep_add_checksum_ops (v : pyval) : pyval :=
+  match v with
+  | PList [PDict cs; PList ops] =>
+      PList (snd (fold_left (fun acc op =>
+                    let '(st, out) := acc in
+                    match op with
+                    | PList [PStr ty; value] =>
+                        match image_add_checksum st ty value with
+                        | Ok (st', r) => (st', out ++ [PList [PStr (lit "ok"); r; PDict st']])
+                        | Err e => (st, out ++ [PList [PStr (lit "err"); PStr (exc_name e); PDict st]])
+                        end
+                    | _ => (st, out ++ [bad_input])
+                    end) ops (cs, [])))
+  | _ => bad_input
+  end.
+
+Definition ep_checksums_add_ops (v : pyval) : pyval :=
+  match v with
+  | PList ops =>
+      PList (snd (fold_left (fun acc op =>
+                    let '(st, out) := acc in
+                    let snap st := PDict (map (fun kv => (fst kv, PList [fst (snd kv); snd (snd kv)])) st) in
+                    match op with
+                    | PList [PStr path; ty; value] =>
+                        match checksums_add st path ty value with
+                        | Ok st' => (st', out ++ [PList [PStr (lit "ok"); snap st']])
+                        | Err e => (st, out ++ [PList [PStr (lit "err"); PStr (exc_name e); snap st]])
+                        end
+                    | _ => (st, out ++ [bad_input])
+                    end) ops ([], [])))
+  | _ => bad_input
+  end.
+
+Definition entries_cs : list (str * (pyval -> pyval)) :=
+  [ (lit "normpath", ep_normpath); (lit "add_checksum_ops", ep_add_checksum_ops); (lit "checksums_add_ops", ep_checksums_add_ops) ].
